@@ -1,9 +1,10 @@
 pub mod common;
 pub mod c01;
 pub mod c08;
+pub mod c16;
 
 use crate::runner::PropSpec;
 
 pub fn registry() -> Vec<PropSpec> {
-    vec![c01::SPEC, c08::SPEC]
+    vec![c01::SPEC, c08::SPEC, c16::SPEC]
 }
